@@ -293,6 +293,15 @@ def run(ctx, rep):
     # ---- the race-length byte is a specification table too (byte ranges -> practice / laps / hours)
     from props import c15
     c15.racelaps_table(ctx, rep)
+    # byte 0 of every frame is the size: the frame length itself, or a quarter of it in the compressed (InSim v9) mode - both
+    # conversions of the size byte, value by value (R3.3 encode, R4.1 decode; shared with C03 / C04)
+    from props import c03_mir, c04
+    before = len(rep.instances)
+    c03_mir.run(ctx, rep)
+    c04.decode_length(ctx, rep)
+    rep.instances[before:] = [i for i in rep.instances[before:] if i["rule"] in ("R3.3", "R4.1")]
+    for r_ in ("R3.4", "R3.5"):
+        rep.floors.pop(r_, None)
 
 
 def hand_tables(ctx, rep):
